@@ -326,4 +326,65 @@ theorem eval_withDrop (cfg : Cfg α) (hdm : cfg.dummy = true) (rt : Item α) (e 
     exact ⟨by simp only [eval, (ihq cd c pos size hc hs.1).1, (ihr cd c pos size hc hs.2).1],
       fun x hx => by simp [eval] at hx⟩
 
+/-! ## expressions that never consult the attribute lists -/
+
+theorem axisNodes_forward (ca cb : Cfg α) (rt : Item α) (ax : Axis) (c : Item α)
+    (h : (ax == .child || ax == .descendant || ax == .descOrSelf || ax == .self) = true) :
+    axisNodes ca rt ax c = axisNodes cb rt ax c := by
+  cases ax <;> first | rfl | (simp at h)
+
+theorem stepNodes_forward (ca cb : Cfg α) (hd : ca.dropRoot = cb.dropRoot) (rt : Item α) (ax : Axis)
+    (t : NTest) (c : Item α)
+    (h : (ax == .child || ax == .descendant || ax == .descOrSelf || ax == .self) = true) :
+    stepNodes ca rt ax t c = stepNodes cb rt ax t c := by
+  unfold stepNodes
+  rw [hd, axisNodes_forward ca cb rt ax c h]
+
+/-- **forward, attribute-free expressions are evaluated without ever looking at the attribute lists**:
+two configurations that agree on the `*`-under-document flag give the same answer -/
+theorem eval_attrs_irrelevant (ca cb : Cfg α) (hd : ca.dropRoot = cb.dropRoot) (rt : Item α) (e : E) :
+    usesAttrOrUp e = false → ∀ (c : Item α) (pos size : Nat), eval ca rt e c pos size = eval cb rt e c pos size := by
+  induction e with
+  | here => intro _ c pos size; rfl
+  | root => intro _ c pos size; rfl
+  | step p ax t q1 q2 ihp ih1 ih2 =>
+    intro h c pos size
+    simp only [usesAttrOrUp, Bool.or_eq_false_iff, Bool.not_eq_false'] at h
+    obtain ⟨⟨⟨hp, h1⟩, h2⟩, hax⟩ := h
+    have hfm : ∀ (l : List (Item α)),
+        l.flatMap (fun c' => filterPos (fun it i n => (eval ca rt q2 it i n).2)
+          (filterPos (fun it i n => (eval ca rt q1 it i n).2) (stepNodes ca rt ax t c'))) =
+        l.flatMap (fun c' => filterPos (fun it i n => (eval cb rt q2 it i n).2)
+          (filterPos (fun it i n => (eval cb rt q1 it i n).2) (stepNodes cb rt ax t c'))) := by
+      intro l
+      apply flatMap_congr'
+      intro c' _
+      rw [stepNodes_forward ca cb hd rt ax t c' hax]
+      have e1 : filterPos (fun it i n => (eval ca rt q1 it i n).2) (stepNodes cb rt ax t c') =
+          filterPos (fun it i n => (eval cb rt q1 it i n).2) (stepNodes cb rt ax t c') :=
+        filterPos_congr _ _ _ (fun x _ i n => by rw [ih1 h1 x i n])
+      rw [e1]
+      exact filterPos_congr _ _ _ (fun x _ i n => by rw [ih2 h2 x i n])
+    simp only [eval, ihp hp c pos size, hfm]
+  | ptrue => intro _ c pos size; rfl
+  | pos n => intro _ c pos size; rfl
+  | last => intro _ c pos size; rfl
+  | posLe n => intro _ c pos size; rfl
+  | exist p ih => intro h c pos size; simp only [usesAttrOrUp] at h; simp only [eval, ih h c 1 1]
+  | countGt p n ih => intro h c pos size; simp only [usesAttrOrUp] at h; simp only [eval, ih h c 1 1]
+  | not q ih => intro h c pos size; simp only [usesAttrOrUp] at h; simp only [eval, ih h c pos size]
+  | and q r ihq ihr =>
+    intro h c pos size
+    simp only [usesAttrOrUp, Bool.or_eq_false_iff] at h
+    simp only [eval, ihq h.1 c pos size, ihr h.2 c pos size]
+  | or q r ihq ihr =>
+    intro h c pos size
+    simp only [usesAttrOrUp, Bool.or_eq_false_iff] at h
+    simp only [eval, ihq h.1 c pos size, ihr h.2 c pos size]
+
+theorem select_attrs_irrelevant (ca cb : Cfg α) (hd : ca.dropRoot = cb.dropRoot) (fromDoc : Bool)
+    (t : Forest α) (e : E) (h : usesAttrOrUp e = false) : select ca fromDoc t e = select cb fromDoc t e := by
+  unfold select
+  rw [eval_attrs_irrelevant ca cb hd (.doc t) e h]
+
 end EPV.Xsd.Sel
